@@ -23,6 +23,7 @@ import Serif.Drive.C10
 import Serif.Drive.C11
 import Serif.Drive.C12
 import Serif.Drive.C13
+import Serif.Drive.C07
 open Lean Serif.Wire
 
 def dispatch (p fam : String) (c impl : Json) : P Json :=
@@ -44,6 +45,7 @@ def dispatch (p fam : String) (c impl : Json) : P Json :=
   | "C11" => Serif.Drive.C11.handle fam c impl
   | "C12" => Serif.Drive.C12.handle fam c impl
   | "C13" => Serif.Drive.C13.handle fam c impl
+  | "C07" => Serif.Drive.C07.handle fam c impl
   | _ => .error s!"unknown property {p}"
 
 def answer (line : String) : Json :=
